@@ -29,6 +29,11 @@
 (* harmless and must stay so.                                               *)
 (* Named deviation: KF_EarlySuiteGuess (0-RTT packet arrives before the     *)
 (* ServerHello while the first offered suite differs from the negotiated).  *)
+(* Not modelled, accepted by the check as the same finding: the guessed     *)
+(* suite also selects the header-protection cipher of that 0-RTT packet, so *)
+(* a garbage packet number may enter the application-data space (shared     *)
+(* with 1-RTT) before authentication and later CLIENT 1-RTT packets may be  *)
+(* lost too -- which ones depends on the garbage value.                     *)
 (***************************************************************************)
 EXTENDS Naturals, Sequences, FiniteSets, SequencesExt, TLC, Json
 
